@@ -14,6 +14,10 @@ Open Scope N_scope.
     source that provides it.  Guards, in plain sight:
     - gRPC endpoint URLs name a host and nothing else ([grpc_guard]);
     - paths given by options are tidy, the generic endpoint's path is plain ([path_inputs_ok]);
+    - transport security (plain text vs TLS, what decides whether a collector can be reached) is
+      claimed for http / https URLs with the ..._INSECURE variables unset ([schemes_ok]); a gRPC
+      connection supplied with WithGRPCConn decides the target and switches compression off
+      ([user_conn] inside [exp_host], [exp_gzip], [exp_insecure]);
     - [path_shape_uniform], [hdrs_wellformed], [comp_wellformed] exclude exactly the shapes of the
       recorded findings F-C20-3..5 (see the [_refuted] theorems below); for the log family all
       three are [true]. *)
@@ -22,8 +26,9 @@ Theorem c20_precedence : forall f pr opts e, env_trimmed e = true ->
   (grpc_guard pr e -> c_host c = exp_host pr opts e) /\
   (pr = PHttp -> path_inputs_ok opts e = true -> path_shape_uniform f opts e = true -> c_path c = exp_path f opts e) /\
   (hdrs_wellformed f e = true -> c_hdrs c = exp_hdrs opts e) /\
-  (comp_wellformed f e = true -> c_gzip c = exp_gzip opts e) /\
-  c_tmo c = exp_tmo opts e.
+  (comp_wellformed f e = true -> c_gzip c = exp_gzip pr opts e) /\
+  c_tmo c = exp_tmo opts e /\
+  (schemes_ok opts e = true -> c_insec c = exp_insecure pr opts e).
 Proof. exact precedence. Qed.
 Print Assumptions c20_precedence.
 
@@ -55,7 +60,10 @@ Theorem c20_invalid_ignored_or_documented : forall f pr opts e, env_trimmed e = 
   c_tmo c = c_tmo c' /\ c_host c = c_host c' /\
   (f = FLog -> c_gzip c = c_gzip c' /\ c_hdrs c = c_hdrs c') /\
   (f <> FLog ->
-   c_gzip c = resolve (last_some opt_gzip opts) (doc_comp (spec_comp e)) (doc_comp (gen_comp e)) false /\
+   c_gzip c = match user_conn pr opts with
+              | Some _ => false
+              | None => resolve (last_some opt_gzip opts) (doc_comp (spec_comp e)) (doc_comp (gen_comp e)) false
+              end /\
    c_hdrs c = resolve (last_some opt_hdrs opts) (doc_headers (spec_hdr e)) (doc_headers (gen_hdr e)) []).
 Proof. exact invalid_ignored. Qed.
 Print Assumptions c20_invalid_ignored_or_documented.
@@ -75,8 +83,8 @@ Print Assumptions c20_specific_path_cleaned_refuted.
     uncompressed, the log exporter uses gzip. *)
 Theorem c20_unknown_compression_masks_refuted :
   exists e, env_trimmed e = true /\
-            c_gzip (exporter_config FTrace PHttp [] e) <> exp_gzip [] e /\
-            c_gzip (exporter_config FLog PHttp [] e) = exp_gzip [] e.
+            c_gzip (exporter_config FTrace PHttp [] e) <> exp_gzip PHttp [] e /\
+            c_gzip (exporter_config FLog PHttp [] e) = exp_gzip PHttp [] e.
 Proof. exact tm_unknown_compression_refuted. Qed.
 Print Assumptions c20_unknown_compression_masks_refuted.
 
@@ -102,9 +110,13 @@ Theorem c20_bsp_sizes_positive : forall i,
    bo_queue o = bsp_queue_expected (b_opt_queue i) (b_env_queue i) /\
    (forall x, b_opt_batch i = Some x -> 0 <= x -> bo_batch o = x))%Z /\
   bsp_sizes_ok i (bo_queue o) (bo_batch o) = true /\
+  (forall b, bsp_batch_expected i (bo_queue o) = Some b -> bo_batch o = b) /\
   bo_delay o = dur_expected (b_opt_delay i) (b_env_delay i) 5000 /\
   bo_export o = dur_expected (b_opt_export i) (b_env_export i) 30000.
-Proof. intros i. split; [exact (bsp_nonneg i) | exact (bsp_ok i)]. Qed.
+Proof.
+  intros i. destruct (bsp_ok i) as (H1 & H2 & H3). repeat split; try assumption; try apply (bsp_nonneg i).
+  exact (bsp_batch_pinned i).
+Qed.
 Print Assumptions c20_bsp_sizes_positive.
 
 (** Batch log record processor: sizes below one are ignored; option over environment over
@@ -137,18 +149,19 @@ Definition ex_env : env :=
   {| gen_ep := str "http://collector:4318/pre/"; spec_ep := str "http://b a d/";
      gen_hdr := str "k=gen"; spec_hdr := str "k=spec,x=a%20b";
      gen_comp := str "gzip"; spec_comp := [];
-     gen_tmo := str "3000"; spec_tmo := str "abc" |}.
+     gen_tmo := str "3000"; spec_tmo := str "abc"; gen_insec := []; spec_insec := [] |}.
 Definition ex_opts : list opt := [OInsecure; OTimeout 7000000000%Z; OTimeout 0%Z].
 
 Example ex_guards : env_trimmed ex_env = true /\ path_inputs_ok ex_opts ex_env = true /\
   path_shape_uniform FTrace ex_opts ex_env = true /\ hdrs_wellformed FTrace ex_env = true /\
-  comp_wellformed FTrace ex_env = true /\ grpc_guard PHttp ex_env.
+  comp_wellformed FTrace ex_env = true /\ grpc_guard PHttp ex_env /\ schemes_ok ex_opts ex_env = true.
 Proof. repeat split; try (vm_compute; reflexivity); discriminate. Qed.
 
 Example ex_config :
   exporter_config FTrace PHttp ex_opts ex_env =
   {| c_host := str "collector:4318"; c_path := str "/pre/v1/traces";
-     c_hdrs := [(str "k", str "spec"); (str "x", str "a b")]; c_gzip := true; c_tmo := 0%Z |}.
+     c_hdrs := [(str "k", str "spec"); (str "x", str "a b")]; c_gzip := true; c_tmo := 0%Z;
+     c_insec := true; c_conn := None |}.
 Proof. vm_compute. reflexivity. Qed.
 
 Example ex_generic_appended :
@@ -161,6 +174,17 @@ Example ex_f2_fixed :
   c_path (exporter_config FLog PHttp [] env_f2) = str "/v1/logs" /\
   c_path (exporter_config FLog PHttp [] env_f2) = exp_path FLog [] env_f2.
 Proof. exact log_generic_trailing_slash_fixed. Qed.
+
+Example ex_conn_and_tls :
+  let e := {| gen_ep := str "http://c:1"; spec_ep := str "https://b:2"; gen_hdr := []; spec_hdr := []; gen_comp := str "gzip";
+              spec_comp := []; gen_tmo := []; spec_tmo := []; gen_insec := []; spec_insec := [] |} in
+  (* the signal-specific https endpoint wins: TLS to b:2 *)
+  c_insec (exporter_config FLog PGrpc [] e) = false /\ c_host (exporter_config FLog PGrpc [] e) = str "b:2" /\
+  (* a user connection wins over everything and switches compression off *)
+  exporter_config FMetric PGrpc [OGRPCConn (str "a:3")] e =
+  {| c_host := str "a:3"; c_path := str "/v1/metrics"; c_hdrs := []; c_gzip := false; c_tmo := 10000000000%Z;
+     c_insec := true; c_conn := Some (str "a:3") |}.
+Proof. repeat split; vm_compute; reflexivity. Qed.
 
 Example ex_scrub : scrub ex_env <> ex_env /\ spec_tmo (scrub ex_env) = [] /\ gen_tmo (scrub ex_env) = str "3000".
 Proof. repeat split; vm_compute; congruence. Qed.
